@@ -250,3 +250,15 @@ CHECKS["C18"] = {
         {"bin": "asan/C18", "cases": P(4000, 60000), "procs": P(8, 16), "size": 70, "shrink_budget": 200, "enum": True, "args": ["--no-fork"]},
     ],
 }
+
+CHECKS["C19"] = {
+    "level": "exploration",
+    "technique": "generated multi-threaded programs (2..8 threads, each a write/read/validate/copy/download scenario over its own contexts, generated yield/spin points, start barrier) built with ThreadSanitizer; oracle = serial equivalence of every thread's output digest plus absence of any happens-before race report (halt_on_error, attributed to the case by the fork-isolating runner)",
+    "level_text": "Schedules are sampled, not enumerated: each case releases its threads from a barrier and perturbs them with generated delays. ThreadSanitizer's happens-before detection reports an unsynchronised conflicting pair whenever both accesses occur in the run, independent of timing, so shared library-owned state on an executed path is found without needing the harmful interleaving; serial-equivalence failures additionally need the interleaving to occur.",
+    "level_note": "Absence of a report covers only the code paths the generated programs execute. Global logging is configured once before the threads start, as the property states.",
+    "rule": "case = list of thread programs (kind, inputs, delay pattern). Non-trivial = at least two threads executed the same library path concurrently (copy||copy, read||read, ...); distinct by choice-sequence hash.",
+    "assumptions": ["ThreadSanitizer's happens-before model (pthread create/join/barrier) is sound for the executed accesses"],
+    "runs": [
+        {"bin": "tsan/C19", "cases": P(250, 6000), "procs": P(8, 16), "size": 70, "shrink_budget": 40, "cpu_limit": 120},
+    ],
+}
